@@ -83,7 +83,54 @@ func checkC11(c *Ctx, r *Report) {
 	r.Rule("R11c", "no store into an expression / dynamic-value / path / metadata object outside the function that constructs it (these objects are shared between a source and its copies and between concurrent readers)", 10)
 	immutableStoresRule(c, r, "R11c")
 	capturedConfigRule(c, r)
+	oneHeaderRule(c, r, "R11f")
 	globalStateRule(c, r)
+}
+
+// oneHeaderRule (R11f): a node's content (its `fields` object) belongs to exactly one Config header. The identity
+// test R11d relies on, the ownership analysis (whose roots are headers) and Parent()/Path() all identify a node
+// by its header: a second header over the same fields — a "view" handed out by a reader — is a different node
+// for every one of them, and a write through it lands in the node it was made from.
+func oneHeaderRule(c *Ctx, r *Report, rule string) {
+	r.Rule(rule, "a Config header only ever receives a `fields` object allocated in the same function (New, cpy): no second header is made over the content of an existing node", 2)
+	cfgT := c.Named("", "Config")
+	for _, fn := range c.SrcFuncs() {
+		if fn.Pkg != c.SSA[""] {
+			continue
+		}
+		Instrs(fn, true, func(in ssa.Instruction) {
+			st, ok := in.(*ssa.Store)
+			if !ok {
+				return
+			}
+			// a whole header copied from an existing one (`tmp := *cfg`) shares the content just the same
+			if types.Identical(st.Val.Type(), cfgT) {
+				for _, s := range Sources(st.Val) {
+					if l, isL := s.(*ssa.UnOp); isL && l.Op == token.MUL {
+						if _, local := l.X.(*ssa.Alloc); !local {
+							r.Bad(rule, c.FnName(fn), "header copied", c.Pos(st.Pos()), "a Config header is copied by value from an existing node: the copy shares the node's content (fields) but is a different node for identity tests, Parent() and the ownership of writes")
+						}
+					}
+				}
+				return
+			}
+			nt, f, ok := FieldOf(st.Addr)
+			if !ok || nt != cfgT || f != "fields" {
+				return
+			}
+			fresh := true
+			why := ""
+			for _, s := range Sources(st.Val) {
+				if a, isA := s.(*ssa.Alloc); isA && a.Heap {
+					continue
+				}
+				fresh = false
+				why = s.String()
+			}
+			r.Check(fresh, rule, c.FnName(fn), "content of a new header", c.Pos(st.Pos()), "the fields object is allocated here",
+				"a Config header is given the fields object of another node ("+why+"): two headers now denote one node — the identity test that keeps a second Unpack from merging a captured child into itself fails, and writes through the new header change the node it was made from")
+		})
+	}
 }
 
 // globalStateRule (R11e): the library keeps no process-wide mutable state besides its atomic
